@@ -24,11 +24,25 @@ import signal
 import time
 
 from harness.runner import Family
-from harness.common import cz, clist
+from harness.common import cz, clist, cbool
 from harness import gen_ts
 
 I32MAX = 2 ** 31 - 1
+# a step is a hang when the child has burnt this much CPU time (not wall time: the machine is
+# shared and may be heavily loaded) since its last progress message, or has been silent for
+# STEP_WALL_CAP seconds of wall time (blocked rather than spinning)
 STEP_TIMEOUT = float(os.environ.get("VERIF_C09_STEP_TIMEOUT", "4"))
+STEP_WALL_CAP = float(os.environ.get("VERIF_C09_STEP_WALL_CAP", "90"))
+_TICK = os.sysconf("SC_CLK_TCK")
+
+
+def cpu_seconds(pid):
+    try:
+        with open("/proc/%d/stat" % pid) as f:
+            parts = f.read().rsplit(")", 1)[1].split()
+        return (int(parts[11]) + int(parts[12])) / _TICK
+    except Exception:
+        return None
 
 # ----------------------------------------------------------------------------------
 # symbolic boundary values
@@ -49,6 +63,10 @@ def res_id(sym, n):
         return n + 1
     if sym == "n/2":
         return n // 2
+    if sym == "-n":
+        return -n
+    if sym == "-n-1":
+        return -n - 1
     if sym == "max":
         return I32MAX
     if sym == "min":
@@ -329,6 +347,7 @@ def snapshot(c, o=None, st=None):
     if c.tc is not None:
         env["tc"] = {t: len(getattr(c.tc, t)) for t in TABLES}
         env["L"] = repr(float(c.tc.sequence_length))
+        env["tc_edge_md"] = bool(len(c.tc.edges.metadata))
     if c.ts is not None:
         ts = c.ts
         env["ts"] = {"nodes": ts.num_nodes, "samples": ts.num_samples, "trees": ts.num_trees,
@@ -336,6 +355,7 @@ def snapshot(c, o=None, st=None):
                      "individuals": ts.num_individuals, "populations": ts.num_populations,
                      "migrations": ts.num_migrations, "provenances": ts.num_provenances}
         env["L"] = repr(float(ts.sequence_length))
+        env["ts_edge_md"] = bool(len(ts.tables.edges.metadata))
         if ts.num_nodes <= 64:
             env["flags"] = [int(x) for x in ts.tables.nodes.flags]
             env["bps"] = [repr(float(x)) for x in ts.breakpoints(as_array=True)]
@@ -427,6 +447,7 @@ def fork_run(case):
     buf, ebuf = b"", b""
     started, done, envs = None, {}, {}
     t_last = time.time()
+    cpu_last = cpu_seconds(pid) or 0.0
     hang = False
     open_fds = {r, er}
     adapter = None
@@ -463,6 +484,7 @@ def fork_run(case):
                 continue
             buf += data
             t_last = now
+            cpu_last = cpu_seconds(pid) or cpu_last
             while b"\n" in buf:
                 line, buf = buf.split(b"\n", 1)
                 line = line.decode()
@@ -477,9 +499,11 @@ def fork_run(case):
                 elif line.startswith("X "):
                     adapter = line[2:]
         if not rl and now - t_last > STEP_TIMEOUT:
-            hang = True
-            os.kill(pid, signal.SIGKILL)
-            break
+            cpu = cpu_seconds(pid)
+            if (cpu is not None and cpu - cpu_last > STEP_TIMEOUT) or now - t_last > STEP_WALL_CAP:
+                hang = True
+                os.kill(pid, signal.SIGKILL)
+                break
     _, status = os.waitpid(pid, 0)
     for fd in (r, er):
         try:
@@ -917,7 +941,10 @@ def _(c, samples, ancestors):
 @op("ts.variants", [("samples", "samples"), ("opts", "raw")])
 def _(c, samples=None, opts=None):
     k = 0
-    for v in c.ts.variants(samples=samples, **(opts or {})):
+    opts = dict(opts or {})
+    if "alleles" in opts:
+        opts["alleles"] = tuple(opts["alleles"])
+    for v in c.ts.variants(samples=samples, **opts):
         k += int(v.genotypes.sum() > -10 ** 9)
     return k
 
@@ -1724,7 +1751,11 @@ def base_valid(rng, desc, tree=None):
 MANGLE_IDS = ["-2", "-1", "n", "n+1", "max", "min"]
 
 
-def mangle_desc(rng, desc):
+MANGLE_KINDS = ["edge_id", "mut_id", "node_ref", "ind_parent", "mig_id", "edge_coord", "site_pos",
+                "time", "shuffle", "dup_edge", "self_edge", "mut_parent_cycle", "seqlen"]
+
+
+def mangle_desc(rng, desc, kinds=None):
     """Turn a valid description into an arbitrary (usually invalid) one.  Returns
     (desc', tags).  Rows keep the layout of harness/gen_ts.py; coordinates may become the
     strings 'nan' / 'inf' (converted by float() in build_raw)."""
@@ -1733,9 +1764,8 @@ def mangle_desc(rng, desc):
     d["scale"] = 1
     tags = []
     nn = len(d["nodes"])
-    kinds = rng.sample(["edge_id", "mut_id", "node_ref", "ind_parent", "mig_id", "edge_coord", "site_pos",
-                        "time", "shuffle", "dup_edge", "self_edge", "mut_parent_cycle", "seqlen"],
-                       rng.choice([1, 1, 2, 3]))
+    if kinds is None:
+        kinds = rng.sample(MANGLE_KINDS, rng.choice([1, 1, 2, 3]))
     for kind in kinds:
         if kind == "edge_id" and d["edges"]:
             e = rng.choice(d["edges"])
@@ -1844,8 +1874,8 @@ def build_raw(base):      # noqa: F811  (wraps the table construction with float
     return _build_raw_inner(b)
 
 
-def base_raw(rng, desc):
-    d, tags = mangle_desc(rng, desc)
+def base_raw(rng, desc, kinds=None):
+    d, tags = mangle_desc(rng, desc, kinds)
     b = {"kind": "raw", "desc": d, "tags": tags, "sort": rng.random() < 0.5,
          "index": rng.choice([None, "build", "build"])}
     if rng.random() < 0.2:
@@ -1941,7 +1971,7 @@ class Monitor(Family):
     """Common machinery: observe = run the sequence in a grand-child under the sanitizers."""
     timeout = 120.0
     workers = 8
-    prelude = "From TskVerif Require Import Base.Common C09.Guards.\nOpen Scope Z_scope."
+    prelude = "From TskVerif Require Import Base.Common Gen.Generated C09.Guards.\nOpen Scope Z_scope."
     tail = ()
 
     def observe(self, case):
@@ -1962,10 +1992,10 @@ class Monitor(Family):
         return d
 
     def shrink(self, case):
-        steps = case["steps"]
-        if len(steps) > 4:               # focused cases are already minimal
-            for i in range(len(steps)):
-                yield dict(case, steps=steps[:i] + steps[i + 1:])
+        # no minimisation: focused cases are minimal by construction, and in a sequence the
+        # failing step is named by the failure key; every re-observation would start a new
+        # sanitizer helper process (seconds each)
+        return []
 
     def coq_check(self, case, obs):
         terms = []
@@ -1999,7 +2029,8 @@ def _fl_terms(env, x):
     """Order-preserving integer encoding of the breakpoints and the position x."""
     bps = [float(b) for b in env["bps"]]
     vals = sorted(set(bps + ([x] if isinstance(x, (int, float)) and math.isfinite(x) else [])))
-    rank = {v: i for i, v in enumerate(vals)}
+    zero = vals.index(0.0)                  # the guards compare with the literal 0: keep 0 -> 0
+    rank = {v: i - zero for i, v in enumerate(vals)}
     if isinstance(x, float) and math.isnan(x):
         fx = "NaN"
     elif x == float("inf"):
@@ -2074,18 +2105,19 @@ def model_term(k, st, r, obs, case):
             m = "tree_seek_index %s %s %s" % (_alloc(T + 1), cz(T), cz(x))
         elif opn == "ts.simplify" and a.get("samples") is not None:
             ids = [res_id(s, N) for s in a["samples"]]
-            m = "simplifier_init_samples %s %s" % (cz(N), clist(ids))
+            m = "simplify_entry %s %s %s" % (cbool(env["ts_edge_md"]), cz(N), clist(ids))
         elif opn == "ts.subset":
             ids = [res_id(s, N) for s in a["nodes"]]
-            m = "table_collection_subset %s %s %s" % (cz(N), _alloc(N), clist(ids))
+            m = "subset_entry %s %s %s %s" % (cbool(ts["migrations"] > 0), cz(N), _alloc(N), clist(ids))
         elif opn == "ts.ibd_within":
             m = "ibd_within_init_current %s %s" % (cz(N), clist([res_id(s, N) for s in a["within"]]))
         elif opn == "ts.ibd_between":
             m = "ibd_between_init_current %s [%s; %s]" % (cz(N), clist([res_id(s, N) for s in a["a"]]),
                                                          clist([res_id(s, N) for s in a["b"]]))
         elif opn == "ts.link_ancestors":
-            m = "link_ancestors_init_current %s %s %s" % (cz(N), clist([res_id(s, N) for s in a["samples"]]),
-                                                         clist([res_id(s, N) for s in a["ancestors"]]))
+            m = "link_ancestors_entry_current %s %s %s %s" % (cbool(env["ts_edge_md"]), cz(N),
+                                                             clist([res_id(s, N) for s in a["samples"]]),
+                                                             clist([res_id(s, N) for s in a["ancestors"]]))
         elif opn in ("ts.variants", "ts.genotype_matrix") and a.get("samples") is not None:
             imp = (a.get("opts") or {}).get("isolated_as_missing") is False
             m = "variant_init_samples %s %s %s %s" % ("true" if imp else "false", cz(N), clist(env["flags"]),
@@ -2098,7 +2130,10 @@ def model_term(k, st, r, obs, case):
             if opts.get("check_shared_equality", True) or mp.get("aslist") or mp.get("dtype"):
                 return None
             mapping = [int(x) for x in _mk_mapping_list(mp, N)]
-            m = "table_collection_union true %s %s %s %s" % (cz(N), cz(N), _alloc(N), clist(mapping))
+            # the union can fail later for reasons outside the guard (inconsistent topology):
+            # one-directional claim -- what the guard rejects, the implementation rejects
+            return "verdict_implies (verdict_of (table_collection_union true %s %s %s %s)) %s" % (
+                cz(N), cz(N), _alloc(N), clist(mapping), v)
         elif opn == "tree.ll_map_mutations":
             g = a["g"]
             if g.get("dtype", "int8") not in ("int8", "int32") or g.get("shape2"):
@@ -2115,8 +2150,8 @@ def model_term(k, st, r, obs, case):
         if opn in ("table.getitem", "table.ll_get_row"):
             n = tcn[a["table"]]
             x = res_id(a["i"], n)
-            if not _ints([x]):
-                return None
+            if not _ints([x]) or (opn == "table.ll_get_row" and abs(x) >= 2 ** 31):
+                return None                # the low-level converter is not public API
             f = "py_table_getitem" if opn == "table.getitem" else "table_get_row"
             m = "%s %s %s %s %s" % (f, _alloc(n), _alloc(n + 1), cz(n), cz(x))
         elif opn == "table.ll_extend" and a.get("dtype", "int32") == "int32":
@@ -2136,10 +2171,11 @@ def model_term(k, st, r, obs, case):
             m = "%s %s %s %s %s %s" % (cur, _alloc(cl["n"]), clist(cl["so"]), clist(mo), cz(cl["sl"]), cz(cl["ml"]))
         elif opn == "tc.subset":
             n = tcn["nodes"]
-            m = "table_collection_subset %s %s %s" % (cz(n), _alloc(n), clist([res_id(s, n) for s in a["nodes"]]))
+            m = "subset_entry %s %s %s %s" % (cbool(tcn["migrations"] > 0), cz(n), _alloc(n),
+                                             clist([res_id(s, n) for s in a["nodes"]]))
         elif opn == "tc.simplify" and a.get("samples") is not None:
             n = tcn["nodes"]
-            m = "simplifier_init_samples %s %s" % (cz(n), clist([res_id(s, n) for s in a["samples"]]))
+            m = "simplify_entry %s %s %s" % (cbool(env["tc_edge_md"]), cz(n), clist([res_id(s, n) for s in a["samples"]]))
         elif opn == "tc.ibd_within":
             n = tcn["nodes"]
             m = "ibd_within_init_current %s %s" % (cz(n), clist([res_id(s, n) for s in a["within"]]))
@@ -2149,8 +2185,9 @@ def model_term(k, st, r, obs, case):
                                                          clist([res_id(s, n) for s in a["b"]]))
         elif opn == "tc.link_ancestors":
             n = tcn["nodes"]
-            m = "link_ancestors_init_current %s %s %s" % (cz(n), clist([res_id(s, n) for s in a["samples"]]),
-                                                         clist([res_id(s, n) for s in a["ancestors"]]))
+            m = "link_ancestors_entry_current %s %s %s %s" % (cbool(env["tc_edge_md"]), cz(n),
+                                                             clist([res_id(s, n) for s in a["samples"]]),
+                                                             clist([res_id(s, n) for s in a["ancestors"]]))
     if m is None:
         return None
     return "verdict_eqb (verdict_of (%s)) %s" % (m, v)
@@ -2480,13 +2517,13 @@ class Tables(Monitor):
                     yield {"base": rng.choice(bases), "steps": [{"op": opn, "args": {"table": t, "i": sym} if opn != "table.truncate" else {"table": t, "k": sym}},
                                                                {"op": "table.iterate", "args": {"table": t}}] + T}
             for ids in ID_LISTS:
-                for dt in (None, "int32", "int64", "uint64", "float64"):
+                for dt in (None, "int32", "int64", "uint64", "float64") if tier != "quick" else (None, "int64", "float64"):
                     yield {"base": rng.choice(bases), "steps": [{"op": "table.getitem_ids", "args": {"table": t, "ids": ids, "dtype": dt}}] + T}
-                for dt in ("int32", "int64", "uint32", "int8"):
+                for dt in ("int32", "int64", "uint32", "int8") if tier != "quick" else ("int32",):
                     yield {"base": rng.choice(bases), "steps": [{"op": "table.ll_extend", "args": {"table": t, "ids": ids, "dtype": dt}}] + T}
             for ln in ("n", "n-1", "n+1", "0", "2n", "1"):
                 yield {"base": rng.choice(bases), "steps": [{"op": "table.getitem_mask", "args": {"table": t, "len": ln}}] + T}
-                for dt, fill in (("bool", 1), ("bool", 0), ("int8", 1), ("uint8", 2), ("int32", 1), ("float64", 1)):
+                for dt, fill in (("bool", 1), ("bool", 0), ("int8", 1), ("uint8", 2), ("int32", 1), ("float64", 1)) if tier != "quick" else (("bool", 1), ("uint8", 2), ("float64", 1)):
                     yield {"base": rng.choice(bases), "steps": [
                         {"op": "table.keep_rows", "args": {"table": t, "len": ln, "dtype": dt, "fill": fill}},
                         {"op": "table.iterate", "args": {"table": t}}] + T}
@@ -2507,11 +2544,11 @@ class Tables(Monitor):
                     for opn in ("table.set_columns_len", "table.append_columns_len"):
                         yield {"base": rng.choice(bases), "steps": [{"op": opn, "args": {"table": t, "col": col, "len": ln}},
                                                                    {"op": "table.iterate", "args": {"table": t}}] + T}
-                for dt in ("float64", "int64", "uint8", "int8", "complex128", "object", "<U3"):
+                for dt in ("float64", "int64", "uint8", "int8", "complex128", "object", "<U3") if tier != "quick" else ("float64", "object"):
                     yield {"base": rng.choice(bases), "steps": [{"op": "table.set_columns_dtype", "args": {"table": t, "col": col, "dtype": dt}},
                                                                {"op": "table.iterate", "args": {"table": t}}] + T}
                 yield {"base": rng.choice(bases), "steps": [{"op": "table.set_columns_2d", "args": {"table": t, "col": col}}] + T}
-                for how in ("short", "long", "empty", "float", "int64big", "2d", "none", "str"):
+                for how in ("short", "long", "empty", "float", "int64big", "2d", "none", "str") if tier != "quick" else ("short", "long", "int64big", "none"):
                     yield {"base": rng.choice(bases), "steps": [{"op": "tc.fromdict_mangled", "args": {"table": t, "col": col, "how": how}}] + T}
             for col in RAGGED[t]:
                 for how in ("first1", "last+1", "last+big", "decreasing", "short", "long", "huge", "empty", "int8", "float"):
@@ -2608,8 +2645,32 @@ class RawTables(Monitor):
 
     def generate(self, rng, tier):
         descs = valid_bases(rng, 12 if tier == "quick" else 60, max_sites=4, migrations=False)
-        n = 700 if tier == "quick" else 8000
-        # every argument-free method on every mangle at least once
+        n = 450 if tier == "quick" else 8000
+        # systematic part: every kind of damage x every table-collection entry point
+        entry = [{"op": "tc.call", "args": {"m": m}} for m in TC_CALLS] + [
+            {"op": "tc.simplify", "args": {"samples": ["0", "1"], "opts": {}}},
+            {"op": "tc.simplify", "args": {"samples": ["0", "1"], "opts": {"keep_unary": True, "filter_nodes": False}}},
+            {"op": "tc.subset", "args": {"nodes": ["0", "n-1"], "opts": {}}},
+            {"op": "tc.union_self", "args": {"mapping": {}, "opts": {"check_shared_equality": False}}},
+            {"op": "tc.union_self", "args": {"mapping": {"fill": "-1"}, "opts": {"check_shared_equality": True}}},
+            {"op": "tc.union_other", "args": {"mapping": {}, "opts": {"check_shared_equality": False}}},
+            {"op": "tc.ibd_within", "args": {"within": ["0", "1"], "opts": {}}},
+            {"op": "tc.ibd_between", "args": {"a": ["0"], "b": ["1"], "opts": {}}},
+            {"op": "tc.ibd_all", "args": {"opts": {}}},
+            {"op": "tc.link_ancestors", "args": {"samples": ["0", "1"], "ancestors": ["n-1"]}},
+            {"op": "tc.sort", "args": {"edge_start": "n/2"}},
+            {"op": "tc.keep_intervals", "args": {"iv": [["0", "mid"]], "opts": {}}},
+            {"op": "tc.keep_intervals", "args": {"iv": [["0", "mid"]], "opts": {"simplify": False}}},
+            {"op": "tc.delete_older", "args": {"t": "mid"}},
+            {"op": "tc.delete_sites", "args": {"sites": ["0"]}},
+        ]
+        reps = 1 if tier == "quick" else 4
+        for _ in range(reps):
+            for kind in MANGLE_KINDS:
+                for e in entry:
+                    base = base_raw(rng, rng.choice(descs), [kind])
+                    st = {"op": e["op"], "args": json.loads(json.dumps(e["args"])), "expect": "any"}
+                    yield {"base": base, "steps": [st, {"op": "probe.tc", "args": {}}]}
         for k in range(n):
             base = base_raw(rng, rng.choice(descs))
             if k % 3 == 0:
@@ -2662,7 +2723,28 @@ class Sequences(Monitor):
 
 
 FAMILIES = [TreeIds, TsIds, Positions, Stats, Tables, MapMutations, RawTables, Sequences]
-NOT_COVERED = []
+NOT_COVERED = [
+    "PROVED is only the guard logic of the entry points modelled in coq/theories/C09/Guards.v; memory safety "
+    "of the compiled C (heap layout, UB in unmodelled code, allocator failure paths) is MONITORED under "
+    "ASan+UBSan on the generated call sequences, not proved",
+    "ids in [num_rows, max_rows) that index table COLUMNS read allocated-but-unused capacity: ASan cannot see "
+    "these (only the guard model can); per-node arrays allocated with exactly num_nodes elements are visible",
+    "monitored only, no guard model: statistics (sample sets / indexes / windows beyond check_sample_sets and "
+    "check_windows), ld_matrix, pair_coalescence_*, genetic_relatedness_*, keep/delete_intervals, decapitate, "
+    "split_edges, delete_older, trim, sort(edge_start), fromdict / set_columns offsets of tables other than "
+    "sites/mutations, union(check_shared_equality=True), count_topologies, newick, kc/rf distance, "
+    "TableCollectionIndexes with arbitrary arrays, all table-collection methods on arbitrary tables",
+    "not monitored: drawing (draw_svg, draw_text), CLI, haplotype_matching (_tskit.LsHmm / matrices), "
+    "tskit.load / dump of corrupted files (property C10), metadata codecs (C12), legacy formats.py, "
+    "ts.pca, general_stat with user functions that misbehave (raise / return wrong shapes beyond one case), "
+    "multi-threaded calls (num_threads > 0), objects shared between threads, pickling of Tree objects, "
+    "the lwt_interface example module, numpy arrays with exotic strides / non-contiguous memory beyond 2-D "
+    "reshapes, ids beyond 2^64, inputs larger than ~10 nodes (no size-dependent paths such as block "
+    "reallocation of >1024 rows)",
+    "allocation-failure paths (TSKIT_VERIF_MALLOC_FAIL_AT hook of the design) are not enumerated",
+    "the low-level _tskit classes are exercised only through the public classes, plus three direct calls "
+    "(ll_table.get_row, ll_table.extend, _ll_tree.map_mutations)",
+]
 
 
 if __name__ == "__main__":
